@@ -28,11 +28,12 @@ func (c ColUUID) EncodeColumn(b *Buffer) {
 	const size = 16
 	offset := len(b.Buf)
 	b.Buf = append(b.Buf, make([]byte, size*len(c))...)
+	start := offset
 	for _, v := range c {
 		copy(b.Buf[offset:offset+size], v[:])
 		offset += size
 	}
-	bswap.Swap64(b.Buf) // BE <-> LE
+	bswap.Swap64(b.Buf[start:]) // BE <-> LE
 }
 
 // WriteColumn encodes ColUUID rows to *Writer.
